@@ -19,9 +19,12 @@ static int streamRecv(MPT_STRUCT(stream) *srm)
 		int flags = mpt_stream_flags(&srm->_info);
 		/* only allocated input buffers can grow */
 		if ((flags & MPT_STREAMFLAG(ReadBuf))
-		    && !(flags & MPT_STREAMFLAG(ReadMap))
-		    && mpt_queue_prepare(&srm->_rd.data, 64)) {
-			ret = mpt_queue_recv(&srm->_rd);
+		    && !(flags & MPT_STREAMFLAG(ReadMap))) {
+			/* every round with new scratch space consumes input */
+			while (ret == MPT_ERROR(MissingBuffer)
+			       && mpt_queue_prepare(&srm->_rd.data, 64)) {
+				ret = mpt_queue_recv(&srm->_rd);
+			}
 		}
 	}
 	return ret;
